@@ -60,10 +60,15 @@ struct Universe {
 }
 fn universe(r: &mut Rng) -> Universe {
     let d = |r: &mut Rng| -> [u64; 4] { core::array::from_fn(|_| r.next() % P) };
+    let a = d(r);
+    // algebraically related digests: limb permutations, equal limb sums / products, limbs summing to 0 mod p, a single
+    // differing limb - anything a "cheaper" equality or zero test (sum, product, first limb ...) would confuse
+    let a_perm = [a[3], a[2], a[1], a[0]];
+    let a_one = [a[0], a[1], a[2], (a[3] + 1) % P];
     Universe {
-        accounts: vec![[0; 4], d(r), d(r), [1, 0, 0, 0], [0, 0, 0, 1], d(r)],
-        nullifiers: (0..6).map(|_| d(r)).collect(),
-        blocks: vec![(d(r), r.below(1 << 32)), (d(r), r.below(1 << 32)), ([0, 0, 0, 7], 3)],
+        accounts: vec![[0; 4], a, d(r), [1, 0, 0, 0], [0, 0, 0, 1], a_perm, a_one, [1, P - 1, 0, 0], [2, 3, 0, 0], [3, 2, 0, 0]],
+        nullifiers: vec![d(r), d(r), a, a_perm, a_one, [1, P - 1, 0, 0], [0, 0, P - 1, 1], d(r)],
+        blocks: vec![(d(r), r.below(1 << 32)), (d(r), r.below(1 << 32)), ([0, 0, 0, 7], 3), ([1, P - 1, 0, 0], 9), ([P - 1, 0, 1, 0], 9), ([0, 5, 0, 0], 11)],
     }
 }
 fn amount(r: &mut Rng) -> u64 {
@@ -82,7 +87,8 @@ fn gen_leaves(r: &mut Rng, n: usize, u: &Universe) -> (Vec<Leaf>, String) {
     let conflict = r.below(10);
     let asset = if r.chance(1, 4) { r.below(5) } else { 0 };
     let fee = *r.pick(&[0u64, 10, 10000]);
-    let blk = r.below(2) as usize;
+    let blk = r.below(u.blocks.len() as u64) as usize;
+    let other_blk = (blk + 1 + r.below(u.blocks.len() as u64 - 1) as usize) % u.blocks.len();
     let mut tag = String::from("compatible");
     let mut leaves: Vec<Leaf> = vec![];
     let few_accounts = r.chance(2, 3);
@@ -93,7 +99,7 @@ fn gen_leaves(r: &mut Rng, n: usize, u: &Universe) -> (Vec<Leaf>, String) {
         l[1] = amount(r);
         l[2] = if r.chance(1, 2) { 0 } else { amount(r) };
         l[3] = fee;
-        let nl = if r.chance(1, 8) { u.nullifiers[r.below(2) as usize] } else { core::array::from_fn(|_| r.next() % P) };
+        let nl = if r.chance(1, 6) { *r.pick(&u.nullifiers) } else { core::array::from_fn(|_| r.next() % P) };
         l[4..8].copy_from_slice(&nl);
         let a1 = if few_accounts { u.accounts[r.below(3) as usize] } else { *r.pick(&u.accounts) };
         let a2 = if few_accounts { u.accounts[r.below(3) as usize] } else { *r.pick(&u.accounts) };
@@ -129,7 +135,7 @@ fn gen_leaves(r: &mut Rng, n: usize, u: &Universe) -> (Vec<Leaf>, String) {
         }
         2 => {
             let i = r.below(n as u64) as usize;
-            leaves[i][16..20].copy_from_slice(&u.blocks[1 - blk].0);
+            leaves[i][16..20].copy_from_slice(&u.blocks[other_blk].0);
             tag = "block-mismatch".into();
         }
         3 => {
@@ -422,7 +428,8 @@ fn main() {
                 let addr: [u64; 4] = core::array::from_fn(|_| rng.edge_felt());
                 let asset = rng.below(2);
                 let fee = *rng.pick(&[0u64, 10]);
-                let blk = rng.below(2) as usize;
+                let blk = rng.below(u.blocks.len() as u64) as usize;
+                let other_blk = (blk + 1 + rng.below(u.blocks.len() as u64 - 1) as usize) % u.blocks.len();
                 let mut tag = String::from("consistent");
                 let mut inners: Vec<Vec<u64>> = vec![];
                 for _ in 0..m {
@@ -463,7 +470,7 @@ fn main() {
                     }
                     2 => {
                         let i = rng.below(m as u64) as usize;
-                        inners[i][3..7].copy_from_slice(&u.blocks[1 - blk].0);
+                        inners[i][3..7].copy_from_slice(&u.blocks[other_blk].0);
                         tag = "block-mismatch".into();
                     }
                     3 => {
